@@ -6,13 +6,23 @@ cd "$(dirname "$0")"
 export GOFLAGS=-mod=mod GOPROXY=off GOSUMDB=off GOTOOLCHAIN=local GOWORK=off
 mkdir -p build evidence replays
 ./coq/build.sh clean | grep -v '^WARNING conda' | tail -5
+# one harness binary per property; a property whose harness does not build is reported by its own check
 python3 - <<'PY'
-import importlib.machinery, importlib.util, sys
+import importlib.machinery, importlib.util, sys, json, concurrent.futures
 loader = importlib.machinery.SourceFileLoader("check", "./check")
 spec = importlib.util.spec_from_loader("check", loader)
-m = importlib.util.module_from_spec(spec); loader.exec_module(m)
-rc, out, binp = m.build_harness()
-print("harness:", rc, binp)
-if rc != 0:
-    print(out[-3000:]); sys.exit(1)
+def build(pid):
+    m = importlib.util.module_from_spec(spec); loader.exec_module(m)
+    m.CURRENT_PID = pid
+    rc, out, binp = m.build_harness()
+    return pid, rc, binp, out[-1500:]
+pids = [c["property_id"] for c in json.load(open("MANIFEST.json"))["checks"]]
+# first build serially (fills the Go build cache), the rest four at a time
+results = [build(pids[0])]
+with concurrent.futures.ThreadPoolExecutor(max_workers=4) as ex:
+    results += list(ex.map(build, pids[1:]))
+for pid, rc, binp, out in results:
+    print("harness", pid, rc, binp)
+    if rc != 0:
+        print(out)
 PY
